@@ -4,6 +4,7 @@ import ChiProofs.Props.C04
 import ChiProofs.Props.C05
 import Mathlib.Analysis.Calculus.FDeriv.Comp
 import Mathlib.Analysis.Calculus.Deriv.Comp
+import Mathlib.Data.List.Nodup
 set_option linter.unusedSectionVars false
 set_option linter.unusedSimpArgs false
 set_option linter.unusedVariables false
@@ -536,6 +537,56 @@ example : run (init 3 true true) [.fix [(2, true)], .s1, .fix [(2, false)], .s1,
 example : run (init 2 false false) [.fix [(0, true), (1, true)], .s1, .call, .fix [(1, false)], .s1]
     = [.fixed, .sens [] true, .plain true, .fixed, .sens [1] true] := by
   decide
+
+/-! ### user-defined parameter names (`set_parameter_names`)
+
+The reduced wrapper knows the model's parameters by their PUBLISHED names and asks for the sensitivities of the
+free ones by those names; the model keeps a map from its own (model-file) names to the published ones. The
+selection made on names is the selection on positions the state machine above works with. -/
+
+/-- for distinct published names: selecting the parameters whose published name is among the published names
+    of `free` selects exactly the positions in `free` (in the model's order) -/
+theorem C03_switch_renamed_selection (pub : List String) (free : List Nat) (hn : pub.Nodup)
+    (hf : ∀ i ∈ free, i < pub.length) :
+    selectByNames pub (requestedNames pub free) = selectCols pub.length (some free) := by
+  unfold selectByNames requestedNames selectCols
+  apply List.filter_congr
+  intro i hi
+  have hi' : i < pub.length := List.mem_range.mp hi
+  rw [Bool.eq_iff_iff]
+  simp only [List.contains_iff_mem, List.mem_map]
+  constructor
+  · rintro ⟨j, hj, e⟩
+    have hj' := hf j hj
+    have : j = i := by
+      simp only [List.getD_eq_getElem?_getD, List.getElem?_eq_getElem hj', List.getElem?_eq_getElem hi', Option.getD_some] at e
+      exact (hn.getElem_inj_iff).mp e
+    exact this ▸ hj
+  · intro h; exact ⟨i, h, rfl⟩
+
+/-- selecting by the model file's own names instead misses every renamed free parameter -/
+theorem C03_switch_own_names_counterexample :
+    selectByNames ["central.size", "global.elimination_rate"]
+        (requestedNames ["central.size", "Elimination rate"] [1]) = []
+    ∧ selectByNames ["central.size", "Elimination rate"]
+        (requestedNames ["central.size", "Elimination rate"] [1]) = [1] := by
+  decide
+
+/-- in a state of the switch: asked, by their published names, for the free parameters, the model selects
+    exactly the free parameters in published order — whatever (distinct) names the user gave -/
+theorem C03_switch_renamed_free (s : St) (shown : List String) (hn : shown.Nodup) (hl : shown.length = s.n) :
+    selectByNames shown (requestedNames shown s.free) = s.free := by
+  have hf : ∀ i ∈ s.free, i < shown.length := by
+    intro i hi
+    have := (List.mem_filter.mp hi).1
+    rw [hl]; exact List.mem_range.mp this
+  rw [C03_switch_renamed_selection shown s.free hn hf, hl]
+  unfold selectCols St.free
+  apply List.filter_congr
+  intro i hi
+  rw [Bool.eq_iff_iff]
+  simp only [List.contains_iff_mem, List.mem_filter]
+  exact ⟨fun h => h.2, fun h => ⟨hi, h⟩⟩
 
 end ChiModel
 
